@@ -15,12 +15,12 @@ Section Lt6.
   Variable tbl : list blang.
   Variable L : lang.
   Variable e : env.
-  Variable aok : attr -> bool.
+  Variable aok : tagname -> list attr -> attr -> bool.
   Variable tok : bool -> option tagname -> bytes -> bool.
   Variable cok : bool -> option tagname -> bool.
   Variable eok : bool -> option tagname -> N -> list node -> bool.
   Variable sy : bool.
-  Hypothesis Haok : forall a, aok a = true -> attr_ok3 L a = true.
+  Hypothesis Haok : forall tg na a, aok tg na a = true -> attr_ok3 L a = true.
   Hypothesis Htok : forall f p c, tok f p c = true -> allc S.is_byte c = true.
 
   Lemma cdata_piece_lt c : allc S.is_byte (cdata_piece sy (NText c)) = true -> allc S.is_byte c = true.
@@ -44,7 +44,7 @@ Section Lt6.
     induction n as [tag attrs ch IH|c|ch IH| |lid roots IH] using node_ind'; intros d f p H; cbn [tree_ok6] in H; try discriminate.
     - apply andb_true_iff in H as [H Hch]. apply andb_true_iff in H as [_ Hat]. fold (kids_ok6 L aok tok cok eok sy (d + 1) (Some tag)) in Hch.
       cbn [collect_node]. rewrite forallb_app. apply andb_true_iff. split.
-      + apply (aoks_ok3 L aok Haok) in Hat. clear -Hat. induction attrs as [|a r IHa]; [reflexivity|]. cbn [forallb flat_map] in *.
+      + apply (aoks_ok3 L (aok tag attrs) (Haok tag attrs)) in Hat. clear -Hat. induction attrs as [|a r IHa]; [reflexivity|]. cbn [forallb flat_map] in *.
         apply andb_true_iff in Hat as [H1 H2]. now rewrite forallb_app, (collect_attr_lt l L a H1), IHa.
       + assert (K : forall f0, kids_ok6 L aok tok cok eok sy (d + 1) (Some tag) f0 ch = true -> forallb (allc S.is_byte) (flat_map (collect_node l) ch) = true).
         { clear Hch. induction IH as [|x r Hx _ IHr]; intros f0 Hch; [reflexivity|]. cbn [kids_ok6 forallb flat_map] in *.
@@ -90,7 +90,7 @@ Section Lt6.
         - repeat (apply andb_true_iff in Htag; destruct Htag as [Htag ?]). apply N.eqb_neq. apply N.leb_le in Htag. lia.
         - now apply andb_true_iff in Htag as [Htag _]. }
       assert (T2 : tbl_lt (strtbl st2) = true).
-      { destruct (has_attr_table e); [exact (abs_attrs5_lt L e _ _ _ _ _ (aoks_ok3 L aok Haok _ Hat) T1 AA)|now injection AA as _ <-]. }
+      { destruct (has_attr_table e); [exact (abs_attrs5_lt L e _ _ _ _ _ (aoks_ok3 L (aok tag attrs) (Haok tag attrs) _ Hat) T1 AA)|now injection AA as _ <-]. }
       assert (K : forall f0 st2 its st3, tbl_lt (strtbl st2) = true -> abs_seq (abs_node5 tbl e) (Some tag) ch st2 = Some (its, st3) ->
                   kids_ok6 L aok tok cok eok sy (d + 1) (Some tag) f0 ch = true -> tbl_lt (strtbl st3) = true).
       { clear AT AA AS Hch T2. induction IH as [|x r Hx _ IHr]; intros f0 s2 its0 s3 T2; cbn [abs_seq].
@@ -131,25 +131,25 @@ Proof.
 Qed.
 
 (* ---- the document-level theorem, for any class ------------------------------------------------------------------------------------ *)
-Definition doc_events6 (tbl : list blang) (L : lang) (e : env) (acan : attr -> bytes)
+Definition doc_events6 (tbl : list blang) (L : lang) (e : env) (acan : tagname -> list attr -> attr -> bytes)
            (tev : bool -> option tagname -> bytes -> list P.event) (root : node) : list P.event :=
   P.EvStartDoc 106 (l_id L)
     :: events6 acan tev (is_syncml (e_lang e)) (emb_doc tbl e) (has_attr_table e) true None root ++ [P.EvEndDoc].
 
 Theorem decode_class6 tblb TBL L o tag attrs ch bs
-        (aok : attr -> bool) (acan : attr -> bytes) (tok : bool -> option tagname -> bytes -> bool)
+        (aok : tagname -> list attr -> attr -> bool) (acan : tagname -> list attr -> attr -> bytes) (tok : bool -> option tagname -> bytes -> bool)
         (tev : bool -> option tagname -> bytes -> list P.event) (cok : bool -> option tagname -> bool)
         (eok : bool -> option tagname -> N -> list node -> bool) :
   let e := enc_env (to_blang L) o in
   (* the class *)
-  (forall a, aok a = true -> attr_ok3 L a = true) ->
+  (forall tg na a, aok tg na a = true -> attr_ok3 L a = true) ->
   (forall f p c, tok f p c = true -> allc S.is_byte c = true) ->
   (forall TF tb, (forall x, In x TF -> okb (s_str x) = true -> S.str_at tb (s_off x) = Some (s_str x)) ->
                  (forall x, In x TF -> S.u32_okb (s_off x) = true) -> (forall x, In x TF -> ref_str TF (s_off x) = s_str x) ->
-     forall l st na ws st' (dst : S.dstate),
-       sub TF st' -> forallb aok l = true -> in_cdata st = false -> S.ds_attrcp dst = attrcp st ->
+     forall tg l st na ws st' (dst : S.dstate),
+       sub TF st' -> forallb (aok tg na) l = true -> cur_tag st = ctag_of (Some tg) -> in_cdata st = false -> S.ds_attrcp dst = attrcp st ->
        abs_attrs5 e st na l = Some (ws, st') ->
-       exists dst', S.den_attrs (S.mk_denv L tb) ws dst = Some (map (attr_event5 acan) l, dst') /\
+       exists dst', S.den_attrs (S.mk_denv L tb) ws dst = Some (map (attr_event5 (acan tg na)) l, dst') /\
                     S.ds_attrcp dst' = attrcp st' /\ S.ds_tagcp dst' = S.ds_tagcp dst /\ S.ds_cur dst' = S.ds_cur dst /\
                     tagcp st' = tagcp st /\ cur_tag st' = cur_tag st /\ in_cdata st' = false) ->
   (forall TF tb, (forall x, In x TF -> okb (s_str x) = true -> S.str_at tb (s_off x) = Some (s_str x)) ->
